@@ -33,8 +33,11 @@ Full statement / proved / missing
 * `C14_confined` — a context that a goroutine observes as current was made current for that goroutine and for no other
   (ghost `World.estab`: written at the two places where a context is installed — DoWithContext entry and the start of a
   Fork goroutine).                                                                                          **proved**
+  `C14_never_observed_by_two`, `C14s_never_observed_by_two` (audit) — the same without the ghost: no context is observed as
+  current by two goroutines.                                                                                **proved**
 * `C14_fork_view` — the forked goroutine's context holds the parent's variables and stack as they are at the `Fork`
   call and a fresh loader whose parent chain is the parent's.                                               **proved**
+  `C14_fork_sees_parent_defs` (audit) — whatever the parent can `Load` at the `Fork` call the child can.    **proved**
   `C14_fork_isolated_partial` — while anybody runs (any program, any goroutine, any number of other goroutines run to
   completion in between), every context object that existed before, other than the running body's own and those of
   goroutines that ran, is unchanged: so a child's `Set/StackPush/DoWithLoader` never reach its parent or a sibling, and a
@@ -146,6 +149,12 @@ theorem C14_restore_loader (f : Nat) (p : Prog) (g c : Nat) (w : World) :
 
 /-- non-vacuity: a panicking body inside DoWithContext inside Do — outcome `panicked`, tables as before -/
 example : (exec .now 9 (.dodo 1 (.doctx 2 (.seq (.set "a" 1) .panic))) 0 0 {}).1 = .panicked := by decide
+/-- added by the audit — `C14_restore_loader` only unfolds `exec` (the deferred restore is the last thing the model does); a
+    concrete instance where it matters: the body of `DoWithLoader` defines `X`, sees it, and PANICS; after the recovered panic
+    the context has its loader back — `X` is no longer visible — and the current context is still the body's own -/
+example : (exec .now 9 (.dodo 1 (.seq (.recover (.doloader (.seq (.deftype "X") (.seq (.load "X") .panic))))
+      (.seq (.load "X") .obs))) 0 0 {}).2.log =
+    [(0, .load "X" true), (0, .recovered), (0, .load "X" false), (0, .obs (some 1) 1 (some 1) [])] := by decide
 /-- non-vacuity of `Pre`: the state right after `DoWithContext` installed context 0 on the fresh goroutine 0 -/
 example : Pre 0 0 (note 0 0 (tlFresh 0 0 { nextCtx := 1 })) := by
   refine ⟨⟨?_, ?_, ?_, List.nodup_nil, ?_, ?_, ?_, List.nodup_nil, ?_, ?_⟩, by decide, by decide, by decide, by decide⟩
@@ -178,6 +187,18 @@ theorem C14_confined (sched : List Nat) (p : Prog) (g g' : Gid) (c lex : CtxId) 
 
 /-- non-vacuity: two goroutines, seven contexts, each made current for exactly one goroutine -/
 example : (run .now [0, 0, 1] sampleNest).estab = [(0, 0), (0, 1), (0, 3), (0, 4), (0, 5), (1, 2), (1, 6)] := by decide
+
+/-- added by the audit — the property's own sentence ("it is never observed from another goroutine") WITHOUT the ghost `estab`
+    that `C14_confined` speaks about: one context is never observed as current by two different goroutines -/
+theorem C14_never_observed_by_two (sched : List Nat) (p : Prog) (g g' : Gid) (c lex lex' : CtxId) (tag tag' : Option Nat)
+    (st st' : List Nat) (h : (g, Ev.obs (some c) lex tag st) ∈ (run .now sched p).log)
+    (h' : (g', Ev.obs (some c) lex' tag' st') ∈ (run .now sched p).log) : g' = g :=
+  (C14_confined sched p g g' c lex tag st h).2 (C14_confined sched p g' g c lex' tag' st' h').1
+-- non-vacuity: in the run of `sampleNest` both goroutines observe (six observations, see above), and no context occurs in the
+-- observations of both
+example : ((run .now [0, 0, 1] sampleNest).log.filterMap fun ge =>
+    match ge.2 with | .obs (some cur) _ _ _ => some (ge.1, cur) | _ => none) =
+    [(0, 1), (0, 3), (1, 2), (1, 6), (0, 5), (0, 3)] := by decide
 
 /-! ## fork isolation -/
 
@@ -277,6 +298,28 @@ theorem C14_loads_unaffected (d d' : LoaderId → List (String × Bool)) (chain 
   | cons l r ih =>
     simp only [loadEntry]
     rw [ih (fun l' hl' => h l' (List.mem_cons_of_mem _ hl')), h l (List.mem_cons_self ..)]
+
+/-- added by the audit — "the parent's [definitions] are visible to the child" as a theorem (`C14_fork_view` gives the chain,
+    the examples show one run): whatever the forking context can `Load` at the `Fork` call, the forked context can `Load` —
+    its fresh loader sits on top of the parent's chain and the parent's entry tables are untouched by the call.  `hlt` (the
+    parent's chain is allocated) is `LInv.chainLt`, an invariant (`C14_linv_exec`). -/
+theorem C14_fork_sees_parent_defs (c : CtxId) (p : Prog) (w : World) (n : String)
+    (hlt : ∀ l ∈ (w.ctxs c).loader, l < w.nextLoader)
+    (h : loadEntry w.defs (w.ctxs c).loader n = some true) :
+    loadEntry (spawn .now c p w).defs ((spawn .now c p w).ctxs w.nextCtx).loader n = some true := by
+  have hl : ((spawn .now c p w).ctxs w.nextCtx).loader = w.nextLoader :: (w.ctxs c).loader := by
+    simp [spawn_now, forkCtx, newCtx, newLoader]
+  have hd : ∀ l ∈ (w.ctxs c).loader, (spawn .now c p w).defs l = w.defs l := by
+    intro l hm
+    have : l ≠ w.nextLoader := Nat.ne_of_lt (hlt l hm)
+    simp [spawn_now, forkCtx, newCtx, newLoader, this]
+  rw [hl]
+  simp only [loadEntry]
+  rw [C14_loads_unaffected w.defs (spawn .now c p w).defs (w.ctxs c).loader n hd, h]
+-- non-vacuity: a context whose own loader 1 (child of the environment loader 0) holds `A`
+example : let w : World := { ctxs := fun _ => { loader := [1, 0] }, defs := fun l => if l = 1 then [("A", true)] else [],
+                             nextLoader := 2, nextCtx := 1 }
+    (∀ l ∈ (w.ctxs 0).loader, l < w.nextLoader) ∧ loadEntry w.defs (w.ctxs 0).loader "A" = some true := by decide
 
 /-! ## the loader-chain invariant (closes the hypothesis of `C14_loads_unaffected`) -/
 
@@ -497,6 +540,36 @@ example : ((Cfg.steps sampleSched2 (Cfg.init sampleInter)).gs.map fun g => (g.gi
 example : ∀ gid, (Cfg.steps sampleSched2 (Cfg.init sampleInter)).w.tls gid = none :=
   (C14s_released (reachable_steps _ Reachable.init) (by decide)).1
 
+/-! #### added by the audit (notes/audit-C14.md): the hypotheses of `C14s_fork_view` and `C14s_waiting_child_view` on concrete
+    reachable configurations -/
+
+/-- `sampleInter` after five micro-steps of the root goroutine: its next micro-step is the `Fork` -/
+def forkPoint : Cfg := Cfg.steps (List.replicate 5 0) (Cfg.init sampleInter)
+def runCtx (g : GS) : Option CtxId := match g.k with | .run _ cx :: _ => some cx | _ => none
+example : Reachable sampleInter forkPoint := reachable_steps _ Reachable.init
+-- non-vacuity of C14s_fork_view: goroutine 0 is at a body frame handed context 1 (`hk`), its next step starts a goroutine
+-- (`hsp`): id 1 = nextGid, not started, context 2 = nextCtx; the caller's `a` is 1 at that moment
+example : (forkPoint.gs.map fun g => (g.gid, runCtx g)) = [(0, some 1)] ∧
+    (forkPoint.gs.map fun g => (stepG g forkPoint.w).spawned.map fun n => (n.gid, n.started, n.ctx0)) = [some (1, false, 2)] ∧
+    forkPoint.w.nextGid = 1 ∧ forkPoint.w.nextCtx = 2 ∧ aget "a" (forkPoint.w.ctxs 1).vars = some 1 := by decide
+/-- … and after `n` micro-steps of the root goroutine only -/
+def waitPoint (n : Nat) : Cfg := Cfg.steps (List.replicate n 0) (Cfg.init sampleInter)
+-- non-vacuity of C14s_waiting_child_view (and its conclusion): after 6 and after 8 steps goroutine 1 exists and has NOT started
+-- (`hnm`, `hns`, `hne`: the stepping goroutine is 0); in between the parent has set a=2 in its own context 1 while the
+-- waiting child's context 2 still holds the a=1 of the `Fork` call; the child owns no table yet
+example : ((waitPoint 6).gs.map fun g => (g.gid, g.started, g.ctx0)) = [(0, true, 0), (1, false, 2)] ∧
+    ((waitPoint 8).gs.map fun g => (g.gid, g.started, g.ctx0)) = [(0, true, 0), (1, false, 2)] ∧
+    aget "a" ((waitPoint 6).w.ctxs 1).vars = some 1 ∧ aget "a" ((waitPoint 8).w.ctxs 1).vars = some 2 ∧
+    aget "a" ((waitPoint 6).w.ctxs 2).vars = some 1 ∧ aget "a" ((waitPoint 8).w.ctxs 2).vars = some 1 ∧
+    (waitPoint 8).w.tls 1 = none := by decide
+
+/-- added by the audit — `C14_never_observed_by_two` under ARBITRARY interleavings: at every reachable configuration no context
+    has been observed as current by two different goroutines -/
+theorem C14s_never_observed_by_two {p : Prog} {c : Cfg} (h : Reachable p c) (g g' : Gid) (ctx lex lex' : CtxId)
+    (tag tag' : Option Nat) (st st' : List Nat) (hm : (g, Ev.obs (some ctx) lex tag st) ∈ c.w.log)
+    (hm' : (g', Ev.obs (some ctx) lex' tag' st') ∈ c.w.log) : g' = g :=
+  (C14s_confined h g g' ctx lex tag st hm).2 (C14s_confined h g' g ctx lex' tag' st' hm').1
+
 /-! ## loader entries under arbitrary interleavings (`Proofs/TlsGhost.lean`) -/
 
 /-- every reachable configuration has a decoration (who a loader was allocated for, who started whom); the semantics never reads it -/
@@ -699,6 +772,12 @@ theorem C14_getg_impl_injective {n m : Nat} (h0 : 0 < n) (hn : n < 2 ^ 63) (h0' 
   Pcore.GidFacts.getg64F_injective C14_gid_facts_std C14_gid_facts_roomy h0 hn h0' hm hr hr' h
 
 example : 0 < 1234567 ∧ 1234567 < 2 ^ 63 ∧ Pcore.Gid.stops Pcore.GidFacts.restRunning = true := by decide
+/-- added by the audit: the CONCLUSIONS on concrete ids — a seven-digit id and the largest `int64` id are read back exactly (the
+    latter over the regenerated constants); on the 16-byte table of `C14_getg_collide` the id after the first cut one is read as
+    the same key 100 000 -/
+example : Pcore.Gid.getg64 (Pcore.Gid.stackBuf 1234567 Pcore.GidFacts.restRunning) = some 1234567 ∧
+    Pcore.GidFacts.keyOf Pcore.Generated.gidFacts (2 ^ 63 - 1) = some (2 ^ 63 - 1 : Int) ∧
+    Pcore.GidFacts.keyOf Pcore.GidFacts.factsBuf16 1000001 = some 100000 := by decide
 
 /-- the bound of the obligation is sharp, for EVERY table with the standard loop constants: the parser is exact on all ids
     below 2^63 iff `prefixLen + 19 ≤ min stackLen bufLen` -/
